@@ -67,7 +67,21 @@ print(json.dumps({'base': base, 'after': after, 'outs': outs}))
 
 
 def run_driver(code, args, timeout=90):
-    p = subprocess.Popen(['/venv/bin/python', '-W', 'ignore', '-c', code] + args, stdout=subprocess.PIPE, stderr=subprocess.PIPE, text=True,
+    # the driver is a real file: with the spawn/forkserver start methods the children re-import __main__ from its path
+    import tempfile
+    d = tempfile.mkdtemp(prefix='mpire_verif_rp_')
+    path = os.path.join(d, 'rp_driver.py')
+    with open(path, 'w') as f:
+        f.write("if True:\n" + code if False else code.replace("\ncause, sm = sys.argv[1]", "\nif __name__ != '__main__':\n    raise SystemExit\ncause, sm = sys.argv[1]"))
+    try:
+        return _run_file(path, args, timeout)
+    finally:
+        import shutil
+        shutil.rmtree(d, ignore_errors=True)
+
+
+def _run_file(path, args, timeout):
+    p = subprocess.Popen(['/venv/bin/python', '-W', 'ignore', path] + args, stdout=subprocess.PIPE, stderr=subprocess.PIPE, text=True,
                          start_new_session=True, env=dict(os.environ, PYTHONPATH=os.environ.get('MPIRE_REPO', '/repo')))
     try:
         out, err = p.communicate(timeout=timeout)
